@@ -38,7 +38,7 @@ from bounded.reftree import from_struct
 
 MODULE = "checks.bounded_C08"
 GRAMMAR_ORDER = ["assgn", "rightrec", "leftrec", "nullable", "ambig", "num", "multichar", "xmlish", "csvish", "altstart", "wide"]
-TREE_CAP = {"quick": 60, "thorough": None}
+TREE_CAP = {"quick": 40, "thorough": None}
 CASE_TIMEOUT = {"quick": 40, "thorough": 400}  # CPU seconds per pair
 
 
@@ -109,12 +109,16 @@ def check_pair(pair: dict, tier: str, seed: int, verbose: bool = False) -> dict:
                 n_exact += exact
                 stage = None
                 if exact:
-                    if a != r and b == r:
-                        stage = "sugar!=core"
-                    elif b != r and a == b:
+                    if b == r:
+                        # the core text means what the evaluator says: any difference
+                        # is the translation's
+                        stage = "sugar!=core" if a != r else None
+                    elif a == b:
+                        stage = "evaluate(core)!=ref_eval"  # translation fine, evaluator differs from the semantics
+                    elif a == r:
                         stage = "evaluate(core)!=ref_eval"
-                    elif a != r and b != r:
-                        stage = "sugar!=core" if a != b else "evaluate(core)!=ref_eval"
+                    else:
+                        stage = "sugar!=core"
                 elif a != b:
                     stage = "sugar!=core"
                 if stage and stage not in first:
